@@ -18,6 +18,7 @@ from .common import outcome_class, robotools
 
 SENT = -999999
 BIG = 2**30
+NAN = -888888  # abstract "not a number" volume: logged as this negative integer, handed to the code as float("nan")
 DEN_LIMIT = 5000
 LCM_LIMIT = 10**6
 
@@ -212,6 +213,8 @@ def kw_log(kw):
 # ----------------------------------------------------------------------------- arguments
 def vol_float(k, unit):
     """k units as the float handed to robotools (exact for the units the drivers use)."""
+    if k == NAN:
+        return float("nan")
     if k >= BIG:
         # the abstract volume "exceeds every limit": infinity, or a huge finite value
         return float("inf") if k == BIG else 1e300
@@ -302,6 +305,7 @@ class Twin:
         self.unit = Fraction(prog["unit"][0], prog["unit"][1])
         self.tmp = None
         self.lws = []
+        self._shared_arrays = {}
         for spec in prog["lw"]:
             self.lws.append(self._make_lw(spec))
         wlp = prog["wl"]
@@ -338,7 +342,19 @@ class Twin:
             if any(n is not None for n in names):
                 kw["column_names"] = list(names)
             return rt.Trough(spec["name"], V, C, min_volume=minv, max_volume=maxv, initial_volumes=iv, **kw)
+        share = spec.get("share")
+        if share is not None and share in self._shared_arrays:
+            # the very same ndarray object that another labware was constructed from (callers do re-use templates)
+            arr = self._shared_arrays[share]
+            cn = {}
+            for i, k in enumerate(init):
+                if names[i] is not None:
+                    cn[wid(i % R, i // R)] = names[i]
+            kw = {"component_names": cn} if cn else {}
+            return rt.Labware(spec["name"], R, C, min_volume=minv, max_volume=maxv, initial_volumes=arr, **kw)
         arr = np.zeros((R, C))
+        if share is not None:
+            self._shared_arrays[share] = arr
         cn = {}
         for i, k in enumerate(init):
             r, c = i % R, i // R
@@ -864,7 +880,8 @@ class Twin:
             a = {"fn": fn, "srack": text_arg(g["srack"]), "drack": text_arg(g["drack"]),
                  "s1": dict(g["s1"]), "s2": dict(g["s2"]), "d1": dict(g["d1"]), "d2": dict(g["d2"]),
                  "vol": self._vol_log(g["vol"]), "reuse": dict(g.get("reuse", {"cls": "int", "v": 1})), "md": dict(g.get("md", {"cls": "int", "v": 1})),
-                 "hasexcl": ex is not None, "excl": list(ex or []), "lc": text_arg(g.get("lc", "")), "dir": g.get("dir", "left_to_right"),
+                 "hasexcl": ex is not None, "excl": [int(x) for x in (ex or [])], "exclfrac": any(float(x) != int(x) for x in (ex or [])),
+                 "lc": text_arg(g.get("lc", "")), "dir": g.get("dir", "left_to_right"),
                  "sid": text_arg(g.get("sid", "")), "stype": text_arg(g.get("stype", "")), "did": text_arg(g.get("did", "")),
                  "dtype": text_arg(g.get("dtype", ""))}
             kw = {}
